@@ -19,7 +19,7 @@ from ..index import AnalysisError, call_name, norm, norm1, names_in
 from . import c08
 from .c06 import kpoint_action
 from ..index import ClassInfo, FunctionInfo
-from ..sem import Sem
+from ..sem import desugar_shallow_copy, Sem
 import re
 from .common import calls, const_of, kwarg, enclosing, fctx, in_body, is_name, method_calls, pfind, pmatch, stmts
 
@@ -113,7 +113,7 @@ def run(ctx) -> None:
         if m is None:
             raise AnalysisError(f"{cn}.transform vanished")
         from ..sem import inline_private_helpers
-        m = inline_private_helpers(idx, m)
+        m = desugar_shallow_copy(idx, inline_private_helpers(idx, m))
         r1.instance(m.short)
         tc = [c for c in method_calls(m.node, "transform_tensor")]
         if len(tc) != 1:
